@@ -100,6 +100,26 @@ def replay_dimer(data):
     R, t = d.transform_ab
     ca, cb = pa.mean(axis=0), pb.mean(axis=0)
     bad = []
+    # the same pair reached by moving two molecules that were already used (centroid asked for, first dimer built): the alignment
+    # is that of the molecules as they are now
+    Qm = np.array([[0.0, -1.0, 0.0], [0.0, 0.0, 1.0], [-1.0, 0.0, 0.0]])        # proper rotation (det +1)
+    ma, mb = Molecule.from_arrays(nums, (pa - 1.5) @ Qm.T), Molecule.from_arrays(nums, pb + np.array([4.0, -3.0, 2.5]))
+    ma.centroid, mb.centroid
+    Dimer(ma, mb, transform_ab="calculate")
+    ma.rotate(Qm, origin=(0, 0, 0))          # positions . Qm undoes the . Qm^T above
+    ma.translate(np.array([1.5, 1.5, 1.5]))
+    mb.translate(-np.array([4.0, -3.0, 2.5]))
+    if not (np.allclose(ma.positions, pa, rtol=0, atol=1e-9) and np.allclose(mb.positions, pb, rtol=0, atol=1e-9)):
+        moved_ok = False        # rotate/translate conventions differ from the ones assumed here: scenario not applicable
+    else:
+        moved_ok = True
+        for tag_, mol_, want_ in (("first", ma, ca), ("second", mb, cb)):
+            if not np.allclose(mol_.centroid, want_, rtol=0, atol=1e-9):
+                bad.append("centroid of the %s molecule after moving it in place is not the mean of its positions" % tag_)
+        R2, t2 = Dimer(ma, mb, transform_ab="calculate").transform_ab
+        dev2 = (((pb - cb) @ R2 - (pa - ca)) ** 2).sum()
+        if dev2 > horn_min_sq_dev(pb - cb, pa - ca) + 1e-7 * max(1.0, (pa * pa).sum() + (pb * pb).sum()):
+            bad.append("dimer of two molecules moved in place: rotation not optimal (%.6g > %.6g)" % (dev2, horn_min_sq_dev(pb - cb, pa - ca)))
     if not np.allclose(t, cb - ca, rtol=0, atol=1e-9):
         bad.append("translation != centroid difference")
     dev = (((pb - cb) @ R - (pa - ca)) ** 2).sum()
@@ -442,6 +462,14 @@ def _dimer(ctx, realnum, m):
     ctx.stub("Molecule.centroid = arithmetic mean of positions (checked against the real property on concrete input)")
     mm = Molecule.from_arrays(np.array([6, 1, 8]), np.array([[0., 0, 1], [2, 0, 0], [0, 3, 0]]))
     ctx.fidelity_check("Molecule.centroid is the mean position", np.allclose(mm.centroid, mm.positions.mean(axis=0)))
+    # ... also after the molecule was moved in place or copied (the stub above stands for the centroid of the molecule as it is now)
+    gd = {"Z": [6, 1, 8, 7], "pos_a": [[0.0, 0.1, 1.0], [2.0, 0.0, 0.3], [0.2, 3.0, 0.0], [1.0, 1.0, -2.0]],
+          "pos_b": [[5.0, 1.1, 1.0], [5.3, 3.0, 0.9], [8.0, 1.0, 1.2], [6.0, 2.1, -1.0]]}
+    gr, gdet = replay_dimer(gd)
+    ctx.record("dimer: molecules used before and then moved in place -- centroid is that of the current positions, alignment optimal (ground instance, real classes)",
+               "holds" if not gr else "counterexample", nontrivial=True, method="ground instances")
+    if gr:
+        ctx.violation("dimer:moved", "Dimer / Molecule.centroid on molecules moved in place: %s" % gdet[0], gd, replay_dimer)
     Hs = []
 
     def svd_cap(H):
